@@ -270,3 +270,24 @@ func EncodeResponse(r Response) []byte {
 	binary.BigEndian.PutUint32(out, uint32(len(body)))
 	return append(out, body...)
 }
+
+// DecodeRequestPrefix decodes the delimited RequestHeader at the start of b
+// (the bytes after the 4-byte frame length); the rest of the frame need not be present.
+func DecodeRequestPrefix(b []byte) (*pb.RequestHeader, error) {
+	hb, hn := protowire.ConsumeBytes(b)
+	if hn < 0 {
+		return nil, errors.New("no delimited header")
+	}
+	h := &pb.RequestHeader{}
+	if err := proto.Unmarshal(hb, h); err != nil {
+		return nil, err
+	}
+	if h.CallId == nil || h.MethodName == nil {
+		return nil, errors.New("not a request header")
+	}
+	switch h.GetMethodName() {
+	case "Get", "Mutate", "Scan", "Multi":
+		return h, nil
+	}
+	return nil, errors.New("unknown method")
+}
